@@ -376,42 +376,43 @@ package factstore
 
 // ---- C18: lock discipline of ConcurrentFactStore -----------------------------------------------------
 // Every base operation happens while this goroutine holds the lock (write lock for mutating operations),
-// and every path releases exactly what it acquired. Schedules are not explored; see DESIGN.md.
+// and every path releases exactly what it acquired,
+// and each operation is ONE critical section (the lock is acquired exactly once), which is what makes it atomic. Schedules are not explored; see DESIGN.md.
 
 //@ func (s ConcurrentFactStore) Add(a)
 //@   requires s.mutex != nil && s.base != nil && sync.held(s.mutex) == 0
 //@   guard call Add: sync.held(s.mutex) == 2
-//@   ensures sync.held(s.mutex) == 0
+//@   ensures sync.held(s.mutex) == 0 && sync.acq(s.mutex) == old(sync.acq(s.mutex)) + 1
 
 //@ func (s ConcurrentFactStore) Remove(a)
 //@   requires s.mutex != nil && s.base != nil && sync.held(s.mutex) == 0
 //@   guard call Remove: sync.held(s.mutex) == 2
-//@   ensures sync.held(s.mutex) == 0
+//@   ensures sync.held(s.mutex) == 0 && sync.acq(s.mutex) == old(sync.acq(s.mutex)) + 1
 
 //@ func (s ConcurrentFactStore) Merge(other)
 //@   requires s.mutex != nil && s.base != nil && sync.held(s.mutex) == 0
 //@   guard call Merge: sync.held(s.mutex) == 2
-//@   ensures sync.held(s.mutex) == 0
+//@   ensures sync.held(s.mutex) == 0 && sync.acq(s.mutex) == old(sync.acq(s.mutex)) + 1
 
 //@ func (s ConcurrentFactStore) Contains(a)
 //@   requires s.mutex != nil && s.base != nil && sync.held(s.mutex) == 0
 //@   guard call Contains: sync.held(s.mutex) >= 1
-//@   ensures sync.held(s.mutex) == 0
+//@   ensures sync.held(s.mutex) == 0 && sync.acq(s.mutex) == old(sync.acq(s.mutex)) + 1
 
 //@ func (s ConcurrentFactStore) GetFacts(a, fn)
 //@   requires s.mutex != nil && s.base != nil && sync.held(s.mutex) == 0
 //@   guard call GetFacts: sync.held(s.mutex) >= 1
-//@   ensures sync.held(s.mutex) == 0
+//@   ensures sync.held(s.mutex) == 0 && sync.acq(s.mutex) == old(sync.acq(s.mutex)) + 1
 
 //@ func (s ConcurrentFactStore) ListPredicates()
 //@   requires s.mutex != nil && s.base != nil && sync.held(s.mutex) == 0
 //@   guard call ListPredicates: sync.held(s.mutex) >= 1
-//@   ensures sync.held(s.mutex) == 0
+//@   ensures sync.held(s.mutex) == 0 && sync.acq(s.mutex) == old(sync.acq(s.mutex)) + 1
 
 //@ func (s ConcurrentFactStore) EstimateFactCount()
 //@   requires s.mutex != nil && s.base != nil && sync.held(s.mutex) == 0
 //@   guard call EstimateFactCount: sync.held(s.mutex) >= 1
-//@   ensures sync.held(s.mutex) == 0
+//@   ensures sync.held(s.mutex) == 0 && sync.acq(s.mutex) == old(sync.acq(s.mutex)) + 1
 
 // ---- C19 / C10: simple column format ------------------------------------------------------------------
 
